@@ -267,6 +267,8 @@ def coq_case(case, obs):
     try:
         if "panic" in obs:
             return "CBroken"
+        if "inconclusive" in obs:      # machine too slow (probe client timeout while held): no verdict from this history
+            return "(CHist [])"
         if case["kind"] == "stress":
             return "(CStress %s %s)" % (cZ(obs["rounds"]), cZ(obs["strays"]))
         steps = obs["steps"]
@@ -303,6 +305,8 @@ def nontrivial_key(case, obs):
 def stats(case, obs):
     if case["kind"] != "hist":
         return ["stress"]
+    if "inconclusive" in obs:
+        return ["inconclusive:probe-timeout"]
     labs = ["hist:len<=%d" % (10 * ((len(case["ops"]) + 9) // 10))]
     prev = None
     for o, s in zip(case["ops"], obs.get("steps", [])):
